@@ -15,7 +15,10 @@ def execute(case):
           "raised": "", "timeout": False, "steps_known": False, "steps": [], "arities": [], "cover_again": [],
           "check_isolated": len({v for e in edges for v in e}) <= 12}
     g = gcmpy.EECC()
+    order = case.get("order", "edges_first")        # the size bound may be set before, after or in the middle of loading the edges
     feed = case.get("feed", "add_edge")
+    if order == "bound_first" or (order == "bound_midway" and feed != "add_edge"):
+        g.set_max_clique_size(case["m0"])
     if feed == "add_edges_from":          # the bulk loader of the Network base class, with the documented list of tuples
         g.add_edges_from(list(edges))
     elif feed == "graph":                 # a ready-made networkx graph handed over through the G property
@@ -24,7 +27,9 @@ def execute(case):
         H.add_edges_from(edges)
         g.G = H
     else:
-        for e in edges:
+        for n_, e in enumerate(edges):
+            if order == "bound_midway" and n_ == len(edges) // 2:
+                g.set_max_clique_size(case["m0"])
             g.add_edge(e)
     pre = case.get("pre")
     if pre:
@@ -39,7 +44,8 @@ def execute(case):
                     g.add_edge(e)
         except Exception:
             pass
-    g.set_max_clique_size(case["m0"])
+    if order == "edges_first" or pre:
+        g.set_max_clique_size(case["m0"])
     steps = []
     orig = getattr(g, "compute_scores", None)
     small = len({v for e in edges for v in e}) <= 8
@@ -170,14 +176,25 @@ def run(chk):
                   [range(0, 4), range(1, 5), range(2, 6)], [range(0, 6), [0, 1, 6, 7], [2, 3, 8, 9]]):
         for m0 in (2, 3, 4, 5, 6):
             traces.append(execute({"edges": union_of_cliques([list(p) for p in parts]), "m0": m0,
-                                   "rng": ("seed", rng.randrange(1 << 30))}))
+                                   "rng": ("seed", rng.randrange(1 << 30)), "order": ["edges_first", "bound_first", "bound_midway"][len(traces) % 3]}))
+    # isolated small cliques next to a path: the size bound given before / while the edges are loaded
+    for order in ("bound_first", "bound_midway", "edges_first"):
+        for m0 in (3, 4, 5):
+            es = union_of_cliques([list(range(0, m0))]) + [(10, 11), (11, 12), (12, 13)]
+            traces.append(execute({"edges": es, "m0": m0, "rng": ("seed", rng.randrange(1 << 30)), "order": order}))
+    # two very large cliques sharing one edge (scores of order 1e-5: a tolerance instead of == 0 goes wrong from 448 vertices on)
+    big = 450
+    if thorough:        # (one such trace costs the TLC judge about 20 minutes: thorough tier only)
+        traces.append(execute({"edges": union_of_cliques([list(range(big)), [big - 2, big - 1] + list(range(big, 2 * big - 2))]), "m0": big,
+                               "rng": ("seed", 5), "feed": "add_edges_from", "watchdog": 300}))
     for i in range(3000 if thorough else 600):
         n = rng.randrange(6, 13)
         p = rng.choice([0.3, 0.5, 0.7])
         es = [(a, b) for a, b in itertools.combinations(range(n), 2) if rng.random() < p]
         if not es:
             continue
-        traces.append(execute({"edges": es, "m0": rng.choice([2, 2, 3, 4, 6]), "rng": ("seed", rng.randrange(1 << 30)), "watchdog": 120, "feed": ["add_edge", "add_edges_from", "graph"][i % 3]}))
+        traces.append(execute({"edges": es, "m0": rng.choice([2, 2, 3, 4, 6]), "rng": ("seed", rng.randrange(1 << 30)), "watchdog": 120, "feed": ["add_edge", "add_edges_from", "graph"][i % 3],
+                               "order": ["edges_first", "edges_first", "bound_first", "bound_midway"][i % 4]}))
     for t in traces:
         t.pop("trail", None)
     if und:
